@@ -33,6 +33,8 @@ def build(case):
 def replay(case):
     if "aggregation" in case:
         return replay_agg(case)
+    if case.get("public"):
+        return replay_public(case)
     m, df = build(case)
     before = df.copy(deep=True)
     res = m._predict(df.copy())
@@ -104,6 +106,41 @@ def replay_agg(case):
     return {"ok": not bad, "problems": bad}
 
 
+def replay_public(case):
+    """the PUBLIC predict() of a daily / billing model on a comparison period wrapped in each of the data classes (reporting AND baseline objects: a
+    second baseline year, or the baseline itself, is scored the same way): both-or-neither on every row, usage masked where temperature is missing"""
+    import opendsm.eemeter as em
+    from opendsm.eemeter.models.daily.model import DailyModel
+    from opendsm.eemeter.models.billing.model import BillingModel
+    cls = BillingModel if case["family"] == "billing" else DailyModel
+    m = cls.from_dict(param_doc(case["family"], case["shape"], case["split"], False))
+    rng = np.random.default_rng(case["seed"])
+    n = case["n_days"]
+    idx = pd.date_range(case["start"], periods=n, freq="D", tz="UTC")          # parameter-built models carry the UTC baseline clock
+    T = 55 + 25 * np.sin(np.arange(n) / 58.0) + rng.normal(0, 3, n)
+    obs = 20 + 0.9 * np.maximum(50 - T, 0) + 0.6 * np.maximum(T - 68, 0) + rng.normal(0, 1, n)
+    df = pd.DataFrame({"temperature": T, "observed": obs}, index=idx)
+    for a, k in case["t_gaps"]:
+        df.iloc[a:a + k, 0] = np.nan
+    for a, k in case["o_gaps"]:
+        df.iloc[a:a + k, 1] = np.nan
+    data = getattr(em, case["data_class"])(df, is_electricity_data=True)
+    m.baseline_timezone = data.tz
+    res = m.predict(data, ignore_disqualification=True)
+    bad = []
+    p, o = np.isfinite(res["predicted"].astype(float)), np.isfinite(res["observed"].astype(float))
+    if not (p == o).all():
+        bad.append(f"{case['data_class']}: {int((p != o).sum())} rows with exactly one of predicted / observed, e.g. {[str(t.date()) for t in res.index[p != o][:3]]}")
+    t_missing = ~np.isfinite(res["temperature"].astype(float)) if "temperature" in res else ~np.isfinite(df["temperature"].reindex(res.index).astype(float))
+    if (o & t_missing.values).any():
+        bad.append(f"{case['data_class']}: {int((o & t_missing.values).sum())} days without temperature kept their usage")
+    s_cols = float(np.nansum(res["predicted"].astype(float)) - np.nansum(res["observed"].astype(float)))
+    s_rows = float(np.nansum(res["predicted"].astype(float) - res["observed"].astype(float)))
+    if not np.isclose(s_cols, s_rows, rtol=1e-9, atol=1e-7):
+        bad.append(f"{case['data_class']}: column sums give savings {s_cols!r}, row-wise savings are {s_rows!r}")
+    return {"ok": not bad, "problems": bad}
+
+
 def run(tier="quick", seed=0):
     b = Bounded("C07", "C07.rows", MODULE,
                 "real _predict of parameter-built daily/billing models: exhaustive patterns over 3 consecutive days of temperature in "
@@ -146,5 +183,16 @@ def run(tier="quick", seed=0):
                     import traceback
                     r = {"ok": False, "problems": [f"exception {type(e).__name__}: {e}", traceback.format_exc()[-400:]]}
                 b.case("C07.agg", case, r["ok"], nontrivial_key=str(case), detail=r["problems"])
+    # the public predict() on every data class a comparison period can be wrapped in
+    for fam, classes in (("daily", ("DailyReportingData", "DailyBaselineData")), ("billing", ("BillingReportingData", "BillingBaselineData"))):
+        for dc in classes:
+            case = {"public": True, "family": fam, "shape": "hdd_tidd_cdd", "split": "unsplit", "data_class": dc, "start": "2023-01-01", "n_days": 365 if fam == "daily" else 120,
+                    "seed": seed + 5, "t_gaps": [[40, 5], [200 if fam == "daily" else 90, 3]], "o_gaps": [[70, 2]]}
+            try:
+                r = replay(case)
+            except Exception as e:  # noqa
+                import traceback
+                r = {"ok": False, "problems": [f"exception {type(e).__name__}: {e}", traceback.format_exc()[-400:]]}
+            b.case("C07.public", case, r["ok"], nontrivial_key=str(case), detail=r["problems"])
     b.exhaustive = tier == "thorough"
     return b.result()
